@@ -519,6 +519,14 @@ def run(ctx):
     c04_tref(_Relabel(ctx, {"C04-TREF": "C01-EPOCH"}), K)
     c15_tref(_Relabel(ctx, {"C15-TREF": "C01-EPOCH"}))
     # samples reach the kernel packed as (P, e, omega, M0, s) in internal units (shared with C05-FEED / C12-COL)
+    from .C09 import check_fcm
+    ctx.rule("C01-KPRIOR", "the scale and the cap the kernel reads from the K prior (`sigma_K0`, `max_K`, stored on the distribution) are what FixedCompanionMass.dist was given, "
+                           "with max_K defaulting to a velocity (500 km/s), not to a bare number in the unit of another argument (shared with C09-FCM).")
+    check_fcm(_Relabel(ctx, {"C09-FCM": "C01-KPRIOR"}))
+    from .C08 import check_lock as c08_lock
+    ctx.rule("C01-MERGE", "multi-survey input reaches the kernel as ONE time-ordered data set whose per-row survey labels are built in the same pass and order as the rows "
+                          "(the caller's iteration order, never re-sorted keys): the offset indicator columns then mark the rows of their own survey (shared with C08-LOCK).")
+    c08_lock(_Relabel(ctx, {"C08-LOCK": "C01-MERGE"}))
     from .C15 import check_lock as c15_lock
     ctx.rule("C01-DATA", "the data object the kernel reads keeps every observation paired: ONE selection (finite filter, then a stable time sort of the filtered rows) is applied "
                          "alike to times, velocities and errors (shared with C15-LOCK).")
